@@ -268,65 +268,84 @@ def cacheGet (c : Option Cached) (user : String) (key : Nat) : Option Cached :=
   | some k => if k.user == user && k.key == key then some k else none
   | none => none
 
+/-- cache lookup, else PublicKeyCallback + source-address check + cache.add.
+    `none` = the "PublicKeyCallback must not return partial success when VerifiedPublicKeyCallback
+    is defined" error. -/
+def pkLookup (cfg : Cfg) (st : St) (r : Req) : Option (Cached × St × List Ev) :=
+  match cacheGet st.cache st.user r.pk.key with
+  | some c => some (c, st, [])
+  | none =>
+    let pr := r.cb.split st.attempts
+    if pr.2.isPartial && cfg.verifiedCb then none else
+    let result := if pr.2.okOrPartial && !cfg.saOk pr.1 then AuthErr.fail else pr.2
+    let c : Cached := ⟨st.user, r.pk.key, result, pr.1⟩
+    some (c, { st with cache := some c }, [Ev.cbPk st.gen st.user r.pk.key r.cb])
+
+/-- `noTouchAllowed(pubKey, candidate.perms)` selects which Verify applies -/
+def sigOk (cfg : Cfg) (p : PkReq) (candPerms : Nat) : Bool :=
+  if (cfg.perm candPerms).noTouch || p.certNoTouch then p.sigValidNT else p.sigValid
+
+/-- the part of `case "publickey"` after the candidate is known -/
+def pkDecide (cfg : Cfg) (st : St) (r : Req) (cand : Cached) (evs : List Ev) : Phase :=
+  let p := r.pk
+  if p.isQuery then
+    if p.trailing then .hard evs else
+    if cand.result.okOrPartial then .again st (evs ++ [Ev.sendPkOk p.algo p.key])
+    else .res st evs 0 cand.result
+  else
+    if !p.sigParses then .hard evs else
+    if !(algorithmsForKeyFormat p.keyType).contains p.algo then .res st evs 0 .fail else
+    if !cfg.algos.contains p.sigFormat then .res st evs 0 .fail else
+    if !isAlgoCompatible p.algo p.sigFormat then .res st evs 0 .fail else
+    if !sigOk cfg p cand.perms then .hard evs else
+    if cand.result == .ok && cfg.verifiedCb then
+      .res st (evs ++ [Ev.cbVpk st.user p.key cand.perms p.sigFormat r.vcb])
+        (r.vcb.split st.attempts).1 (r.vcb.split st.attempts).2
+    else .res st evs cand.perms cand.result
+
+/-- the checks of `case "publickey"` that come before the cache lookup;
+    `none` = go on, `some ph` = leave the switch with `ph` -/
+def pkPre (cfg : Cfg) (st : St) (r : Req) : Option Phase :=
+  let p := r.pk
+  if !st.cbs.pk then some (.res st [] 0 .fail) else
+  if p.payloadEmpty then some (.hard []) else
+  if !p.algoOk then some (.hard []) else
+  if !cfg.algos.contains (underlyingAlgo p.algo) then some (.res st [] 0 .fail) else
+  if !p.keyOk then some (.hard []) else
+  if !p.keyParses then some (.res st [] 0 .fail) else
+  none
+
 /-- `case "publickey":` -/
 def pkPhase (cfg : Cfg) (st : St) (r : Req) : Phase :=
-  let p := r.pk
-  if !st.cbs.pk then .res st [] 0 .fail else
-  if p.payloadEmpty then .hard [] else
-  if !p.algoOk then .hard [] else
-  if !cfg.algos.contains (underlyingAlgo p.algo) then .res st [] 0 .fail else
-  if !p.keyOk then .hard [] else
-  if !p.keyParses then .res st [] 0 .fail else
-  -- cache lookup / PublicKeyCallback
-  let looked : Option (Cached × St × List Ev) :=
-    match cacheGet st.cache st.user p.key with
-    | some c => some (c, st, [])
-    | none =>
-      let (perms, result) := r.cb.split st.attempts
-      let ev := Ev.cbPk st.gen st.user p.key r.cb
-      if result.isPartial && cfg.verifiedCb then none else
-      let result := if result.okOrPartial && !cfg.saOk perms then AuthErr.fail else result
-      let c : Cached := ⟨st.user, p.key, result, perms⟩
-      some (c, { st with cache := some c }, [ev])
-  match looked with
-  | none => .hard [Ev.cbPk st.gen st.user p.key r.cb]
-  | some (cand, st, evs) =>
-    if p.isQuery then
-      if p.trailing then .hard evs else
-      if cand.result.okOrPartial then .again st (evs ++ [Ev.sendPkOk p.algo p.key])
-      else .res st evs 0 cand.result
-    else
-      if !p.sigParses then .hard evs else
-      if !(algorithmsForKeyFormat p.keyType).contains p.algo then .res st evs 0 .fail else
-      if !cfg.algos.contains p.sigFormat then .res st evs 0 .fail else
-      if !isAlgoCompatible p.algo p.sigFormat then .res st evs 0 .fail else
-      let noTouch := (cfg.perm cand.perms).noTouch || p.certNoTouch
-      let valid := if noTouch then p.sigValidNT else p.sigValid
-      if !valid then .hard evs else
-      if cand.result == .ok && cfg.verifiedCb then
-        let (perms, e) := r.vcb.split st.attempts
-        .res st (evs ++ [Ev.cbVpk st.user p.key cand.perms p.sigFormat r.vcb]) perms e
-      else .res st evs cand.perms cand.result
+  match pkPre cfg st r with
+  | some ph => ph
+  | none =>
+    match pkLookup cfg st r with
+    | none => .hard [Ev.cbPk st.gen st.user r.pk.key r.cb]
+    | some (cand, st, evs) => pkDecide cfg st r cand evs
+
+/-- `case "none":` (after `noneAuthCount++`) -/
+def nonePhase (cfg : Cfg) (st : St) (r : Req) : Phase :=
+  if cfg.noClientAuth && !st.partialRet then
+    if cfg.noClientAuthCb then
+      .res st [Ev.cbNone st.user r.cb] (r.cb.split st.attempts).1 (r.cb.split st.attempts).2
+    else .res st [] 0 .ok
+  else .res st [] 0 .fail
+
+def pwPhase (st : St) (r : Req) : Phase :=
+  if !st.cbs.pw then .res st [] 0 .fail else
+  if r.pwShape != .ok then .hard [] else
+  .res st [Ev.cbPw st.gen st.user r.password r.cb] (r.cb.split st.attempts).1 (r.cb.split st.attempts).2
+
+def kbdPhase (st : St) (r : Req) : Phase :=
+  if !st.cbs.kbd then .res st [] 0 .fail else
+  .res st [Ev.cbKbd st.gen st.user r.cb] (r.cb.split st.attempts).1 (r.cb.split st.attempts).2
 
 /-- the `switch userAuthReq.Method` -/
 def methodPhase (cfg : Cfg) (st : St) (r : Req) : Phase :=
-  if r.method == "none" then
-    let st := { st with noneCount := st.noneCount + 1 }
-    if cfg.noClientAuth && !st.partialRet then
-      if cfg.noClientAuthCb then
-        let (perms, e) := r.cb.split st.attempts
-        .res st [Ev.cbNone st.user r.cb] perms e
-      else .res st [] 0 .ok
-    else .res st [] 0 .fail
-  else if r.method == "password" then
-    if !st.cbs.pw then .res st [] 0 .fail else
-    if r.pwShape != .ok then .hard [] else
-    let (perms, e) := r.cb.split st.attempts
-    .res st [Ev.cbPw st.gen st.user r.password r.cb] perms e
-  else if r.method == "keyboard-interactive" then
-    if !st.cbs.kbd then .res st [] 0 .fail else
-    let (perms, e) := r.cb.split st.attempts
-    .res st [Ev.cbKbd st.gen st.user r.cb] perms e
+  if r.method == "none" then nonePhase cfg { st with noneCount := st.noneCount + 1 } r
+  else if r.method == "password" then pwPhase st r
+  else if r.method == "keyboard-interactive" then kbdPhase st r
   else if r.method == "publickey" then pkPhase cfg st r
   else .res st [] 0 .fail   -- gssapi-with-mic is never configured here; unknown methods
 
@@ -339,11 +358,20 @@ def AuthErr.logRes : AuthErr → LogRes
   | .partialOk _ _ => .partialOk
   | _ => .fail
 
-/-- everything after the method switch -/
-def finish (cfg : Cfg) (st : St) (r : Req) (evs : List Ev) (perms : Nat) (e : AuthErr) : Res :=
-  let e := if e == .ok && !cfg.saOk perms then AuthErr.fail else e
-  let evs := evs ++ [Ev.log r.method e.logRes]
-  let evs := if e == .bannerFail true then evs ++ [Ev.sendBanner] else evs
+/-- the final source-address check on the Permissions of a successful callback -/
+def saFilter (cfg : Cfg) (perms : Nat) (e : AuthErr) : AuthErr :=
+  if e == .ok && !cfg.saOk perms then .fail else e
+
+/-- AuthLogCallback, then the BannerError message -/
+def logEvs (r : Req) (e : AuthErr) : List Ev :=
+  Ev.log r.method e.logRes :: (if e == .bannerFail true then [Ev.sendBanner] else [])
+
+/-- "Allow initial attempt of 'none' without penalty." -/
+def bumpFailures (st : St) (r : Req) : Nat :=
+  if st.failures > 0 || r.method != "none" || st.noneCount != 1 then st.failures + 1 else st.failures
+
+/-- success / partial success / failure handling for the final `authErr` -/
+def conclude (cfg : Cfg) (st : St) (r : Req) (evs : List Ev) (perms : Nat) (e : AuthErr) : Res :=
   match e with
   | .ok => .done (evs ++ [Ev.sendSuccess]) (.ok perms)
   | .partialOk next gen =>
@@ -352,34 +380,38 @@ def finish (cfg : Cfg) (st : St) (r : Req) (evs : List Ev) (perms : Nat) (e : Au
     if (methodsOf next).isEmpty then .done evs .err
     else .cont st (evs ++ [Ev.sendFailure (methodsOf next) true])
   | _ =>
-    let failures :=
-      if st.failures > 0 || r.method != "none" || st.noneCount != 1 then st.failures + 1 else st.failures
-    let st := { st with failures := failures }
-    if cfg.maxTries > 0 && (failures : Int) ≥ cfg.maxTries then .cont st evs
+    let st := { st with failures := bumpFailures st r }
+    if cfg.maxTries > 0 && (st.failures : Int) ≥ cfg.maxTries then .cont st evs
     else if (methodsOf st.cbs).isEmpty then .done evs .err
     else .cont st (evs ++ [Ev.sendFailure (methodsOf st.cbs) false])
+
+/-- everything after the method switch -/
+def finish (cfg : Cfg) (st : St) (r : Req) (evs : List Ev) (perms : Nat) (e : AuthErr) : Res :=
+  conclude cfg st r (evs ++ logEvs r (saFilter cfg perms e)) perms (saFilter cfg perms e)
+
+/-- BannerCallback, called once, on the first request that gets this far -/
+def bannerPhase (cfg : Cfg) (st : St) : St × List Ev :=
+  if !st.bannerCalled then
+    match cfg.bannerCb with
+    | none => (st, [])
+    | some nonEmpty =>
+      ({ st with bannerCalled := true },
+        Ev.cbBanner st.user :: (if nonEmpty then [Ev.sendBanner] else []))
+  else (st, [])
 
 /-- one loop iteration after a request has been read and unmarshalled
     (`st.attempts` has already been incremented) -/
 def step (cfg : Cfg) (st : St) (r : Req) : Res :=
   if r.service != "ssh-connection" then .done [] .err else
   if st.user != r.user && st.partialRet then .done [] .err else
-  let st := { st with user := r.user }
-  let (st, evB) :=
-    if !st.bannerCalled then
-      match cfg.bannerCb with
-      | none => (st, [])
-      | some nonEmpty =>
-        ({ st with bannerCalled := true },
-          Ev.cbBanner st.user :: (if nonEmpty then [Ev.sendBanner] else []))
-    else (st, [])
-  match methodPhase cfg st r with
-  | .hard evs => .done (evB ++ evs) .err
-  | .again st evs => .cont st (evB ++ evs)
+  let sb := bannerPhase cfg { st with user := r.user }
+  match methodPhase cfg sb.1 r with
+  | .hard evs => .done (sb.2 ++ evs) .err
+  | .again st evs => .cont st (sb.2 ++ evs)
   | .res st evs perms e =>
     match finish cfg st r evs perms e with
-    | .done evs' f => .done (evB ++ evs') f
-    | .cont st evs' => .cont st (evB ++ evs')
+    | .done evs' f => .done (sb.2 ++ evs') f
+    | .cont st evs' => .cont st (sb.2 ++ evs')
 
 /-- the two disconnect guards at the head of the loop -/
 def tooMany (cfg : Cfg) (st : St) : Bool :=
